@@ -512,6 +512,98 @@ func qPagingGrid(n int64) []qPaging {
 	return grid
 }
 
+// c02ExtremePaging: paging parameters at the numeric extremes, relative to the dataset size n.  Three
+// families of (skip, limit) pairs, every value a legal int64:
+//   - a small skip s with a finite limit near MaxInt64: MaxInt64-1, MaxInt64-2, MaxInt64-n, the limit
+//     that makes s+limit exactly MaxInt64 (largest sum without overflow) and exactly 2^63 (first
+//     overflowing sum), limits around 2^62 and the most negative limits;
+//   - a skip near MaxInt64 / around 2^62 with absent, none, tiny, n-sized and near-MaxInt64 limits
+//     (sum far beyond MaxInt64, or wrapping back to a small non-negative number);
+//   - the most negative skips with the same limits.
+func c02ExtremePaging(n int64) []qPaging {
+	const max = math.MaxInt64
+	const min = math.MinInt64
+	seen := map[[2]string]bool{}
+	var out []qPaging
+	add := func(skip *int64, l qPaging) {
+		key := [2]string{"-", "-"}
+		if skip != nil {
+			key[0] = strconv.FormatInt(*skip, 10)
+		}
+		if l.none {
+			key[1] = "none"
+		} else if l.limit != nil {
+			key[1] = strconv.FormatInt(*l.limit, 10)
+		}
+		if seen[key] {
+			return
+		}
+		seen[key] = true
+		out = append(out, qPaging{skip: skip, limit: l.limit, none: l.none})
+	}
+	lim := func(v int64) qPaging { return qPaging{limit: qI64p(v)} }
+	var smallSkips []*int64
+	smallSkips = append(smallSkips, nil)
+	for _, s := range []int64{0, 1, 2, 3, n - 1, n, n + 1} {
+		if s >= 0 {
+			smallSkips = append(smallSkips, qI64p(s))
+		}
+	}
+	for _, sp := range smallSkips {
+		var s int64
+		if sp != nil {
+			s = *sp
+		}
+		for _, l := range []int64{max - 1, max - 2, max - n, max - n - 1, max - s, max - 1000, 1<<62 + 1, 1<<62 - 1, 1 << 62, min, min + 1, -(1 << 62)} {
+			add(sp, lim(l))
+		}
+		if s > 0 {
+			add(sp, lim(max-s+1)) // s + limit = 2^63
+			add(sp, lim(max-s-1))
+		}
+		if s > 1 {
+			add(sp, lim(max-s+2))
+		}
+	}
+	hugeSkips := []int64{max - 1, max - 2, max - n, max - n - 1, 1<<62 + 1, 1<<62 - 1, max - 1<<62, max - 1<<62 + 1}
+	for _, s := range hugeSkips {
+		sp := qI64p(s)
+		for _, l := range []qPaging{{}, {none: true}, lim(-1), lim(0), lim(1), lim(2), lim(n), lim(n + 1), lim(max), lim(max - 1), lim(max - n),
+			lim(1 << 62), lim(1<<62 + 1), lim(max - s), lim(min)} {
+			add(sp, l)
+		}
+		add(sp, lim(max-s+1)) // s + limit = 2^63 (the wrapped sum of two non-negative int64 is always negative)
+	}
+	for _, s := range []int64{min, min + 1, -(1 << 62), -(max)} {
+		sp := qI64p(s)
+		for _, l := range []qPaging{{}, {none: true}, lim(0), lim(1), lim(n), lim(max), lim(max - 1), lim(min), lim(min + 1)} {
+			add(sp, l)
+		}
+	}
+	return out
+}
+
+// c02NearExtreme draws a paging value close to one of the int64 landmarks
+func c02NearExtreme(r *rng, n int) int64 {
+	d := int64(r.intn(n + 4))
+	switch r.intn(7) {
+	case 0:
+		return math.MaxInt64 - d
+	case 1:
+		return math.MinInt64 + d
+	case 2:
+		return 1<<62 + d
+	case 3:
+		return 1<<62 - d
+	case 4:
+		return math.MaxInt64 - 1<<62 - d + 2
+	case 5:
+		return -(1 << 62) - d
+	default:
+		return d
+	}
+}
+
 func qRandomSort(r *rng, maxLen int) []qSortField {
 	n := r.intn(maxLen + 1)
 	var fs []qSortField
@@ -558,6 +650,8 @@ func qSkipClass(p qPaging, n int64) string {
 	switch {
 	case p.skip == nil:
 		return "absent"
+	case *p.skip <= -(1<<62):
+		return "negative-huge"
 	case *p.skip < 0:
 		return "negative"
 	case *p.skip == 0:
@@ -566,7 +660,11 @@ func qSkipClass(p qPaging, n int64) string {
 		return "inside"
 	case *p.skip == n:
 		return "at-end"
-	case *p.skip >= 1<<62:
+	case *p.skip == math.MaxInt64:
+		return "max"
+	case *p.skip >= math.MaxInt64-(1<<20):
+		return "near-max"
+	case *p.skip >= 1<<62-(1<<20):
 		return "huge"
 	default:
 		return "beyond-end"
@@ -579,16 +677,50 @@ func qLimitClass(p qPaging, n int64) string {
 		return "none"
 	case p.limit == nil:
 		return "absent"
+	case *p.limit <= -(1<<62):
+		return "negative-huge"
 	case *p.limit < 0:
 		return "negative"
 	case *p.limit == 0:
 		return "zero"
-	case *p.limit >= 1<<62:
+	case *p.limit == math.MaxInt64:
+		return "max"
+	case *p.limit >= math.MaxInt64-(1<<20):
+		return "near-max"
+	case *p.limit >= 1<<62-(1<<20):
 		return "huge"
 	case *p.limit >= n:
 		return "all"
 	default:
 		return "inside"
+	}
+}
+
+// c02SumClass: where skip+limit (after the normalisation of the property: negative skip = 0,
+// absent/negative/none limit = unbounded) lies relative to MaxInt64
+func c02SumClass(p qPaging) string {
+	var s int64
+	if p.skip != nil && *p.skip > 0 {
+		s = *p.skip
+	}
+	if p.none || p.limit == nil || *p.limit < 0 {
+		if s > 0 {
+			return "unbounded-limit+skip"
+		}
+		return "unbounded-limit"
+	}
+	l := *p.limit
+	switch {
+	case s > math.MaxInt64-l && l == math.MaxInt64:
+		return "overflow-limit-max"
+	case s > math.MaxInt64-l:
+		return "overflow-finite-limit"
+	case s+l == math.MaxInt64:
+		return "exactly-max"
+	case s+l >= 1<<62:
+		return "huge-no-overflow"
+	default:
+		return "ordinary"
 	}
 }
 
@@ -603,7 +735,7 @@ func runC02(o *opts) error {
 	}
 	defer qb.close()
 
-	stats := map[string]map[string]int{"rows": {}, "sort_keys": {}, "skip": {}, "limit": {}, "filter": {}, "kind": {}}
+	stats := map[string]map[string]int{"rows": {}, "sort_keys": {}, "skip": {}, "limit": {}, "filter": {}, "kind": {}, "skip_plus_limit": {}, "strategy_x_sum": {}}
 	bump := func(group, key string) { stats[group][key]++ }
 
 	if rp := o.get("replaycase", ""); rp != "" {
@@ -627,6 +759,16 @@ func runC02(o *opts) error {
 		bump("skip", qSkipClass(pg, n))
 		bump("limit", qLimitClass(pg, n))
 		bump("filter", qFilters[q.filter].text)
+		bump("skip_plus_limit", c02SumClass(pg))
+		strat := "sorting"
+		if len(q.sort) == 0 {
+			strat = "id-forward"
+		} else if q.sort[0].col < 0 && q.sort[0].asc {
+			strat = "id-forward"
+		} else if q.sort[0].col < 0 {
+			strat = "id-reverse"
+		}
+		bump("strategy_x_sum", strat+"/"+c02SumClass(pg))
 	}
 	for di := 0; di < nData; di++ {
 		var n int
@@ -694,6 +836,44 @@ func runC02(o *opts) error {
 			for _, pg := range short {
 				emit(d, store, kind, &qQuery{filter: filter, sort: fs, skip: pg.skip, limit: pg.limit, none: pg.none})
 			}
+		}
+		// paging parameters at the numeric extremes: every pair on every systematic specification of the
+		// probe dataset; on the other datasets on a rotating third of them plus a random specification
+		// (always at least one specification per scan strategy: sorting, id forward, id reverse)
+		extremes := c02ExtremePaging(int64(n))
+		var exSorts [][]qSortField
+		for si, fs := range systematic {
+			if di == 0 || si%3 == di%3 {
+				exSorts = append(exSorts, fs)
+			}
+		}
+		if di != 0 {
+			exSorts = append(exSorts, []qSortField{{col: qColFi + r.intn(5), asc: r.chance(50)}},
+				[]qSortField{{col: -1, asc: false}}, nil, qRandomSort(r, 5))
+		}
+		for _, fs := range exSorts {
+			filter := 0
+			if r.chance(40) {
+				filter = r.intn(len(qFilters))
+			}
+			for _, pg := range extremes {
+				emit(d, store, kind, &qQuery{filter: filter, sort: fs, skip: pg.skip, limit: pg.limit, none: pg.none})
+			}
+		}
+		// random values next to the int64 landmarks (MaxInt64, MinInt64, +-2^62, MaxInt64-2^62)
+		for k := 0; k < 40; k++ {
+			q := &qQuery{filter: r.intn(len(qFilters)), sort: qRandomSort(r, 5)}
+			if r.chance(85) {
+				q.skip = qI64p(c02NearExtreme(r, n))
+			}
+			switch r.intn(6) {
+			case 0:
+			case 1:
+				q.none = true
+			default:
+				q.limit = qI64p(c02NearExtreme(r, n))
+			}
+			emit(d, store, kind, q)
 		}
 		// random paging values around the boundaries, random everything else
 		for k := 0; k < 40; k++ {
